@@ -110,6 +110,8 @@ fn run_script<S: Source>(sc: &[Sop], p: &mut Primitive<S>, log: &mut Log) -> Res
             Sop::WithSliceAll => { granted = 0; match p.with_slice_all(|s| Ok::<Vec<u8>, &'static str>(s.to_vec())) { Ok(v) => lbytes(log, &v), Err(e) => { if is_source_err(&e) { return Err(e) } log.push(-1) } } }
             Sop::Remaining => { log.push(p.remaining() as i128); }
         }
+        // isolation: whatever was granted, the view of a value's content never extends past its end
+        if p.slice().len() > p.remaining() { log.push(-99); }
     }
     Ok(())
 }
